@@ -255,6 +255,13 @@ func (x *Exec) iteVal(c *Term, a, b *Val) *Val {
 func (x *Exec) execAlloc(st *State, in *ssa.Alloc) {
 	et := in.Type().(*types.Pointer).Elem()
 	k, _ := classify(et)
+	if in.Heap && k == TScalar && addrStored(in) {
+		// a scalar local whose address is stored into memory (p.f = &v): a boxed cell on the heap
+		r := x.newRef(st, in.Comment)
+		x.storeObj(st, r, et, "", et, zeroVal(et))
+		x.setReg(in, scalar(r, in.Type()))
+		return
+	}
 	if in.Heap && k == TStruct {
 		r := x.newRef(st, in.Comment)
 		x.storeObj(st, r, et, "", et, zeroVal(et))
@@ -285,6 +292,19 @@ func (x *Exec) execAlloc(st *State, in *ssa.Alloc) {
 	}
 	st.cells[in] = zeroVal(et)
 	x.setReg(in, &Val{K: VPath, Path: &Path{Cell: in, T: et}})
+}
+
+// addrStored reports whether the address produced by the Alloc is itself stored into memory.
+func addrStored(a *ssa.Alloc) bool {
+	if a.Referrers() == nil {
+		return false
+	}
+	for _, r := range *a.Referrers() {
+		if st, ok := r.(*ssa.Store); ok && st.Val == a {
+			return true
+		}
+	}
+	return false
 }
 
 func isByteArr(t types.Type) bool {
@@ -774,6 +794,14 @@ func (x *Exec) makeInterface(st *State, v *Val, from, to types.Type) *Val {
 
 func (x *Exec) execTypeAssert(st *State, in *ssa.TypeAssert) {
 	v := x.val(st, in.X)
+	if _, isIface := in.AssertedType.Underlying().(*types.Interface); isIface && in.CommaOk && v.K == VScalar && v.T.S == SAny && !isErrorType(in.AssertedType) {
+		// interface-to-interface assertion: same value; whether the dynamic type has the methods is a
+		// deterministic (uninterpreted) function of the value, nameable in contracts as implements(e, "pkg.Iface")
+		ok := x.ufApp("implements."+typeKey(in.AssertedType), SBool, v.T)
+		x.assume(st, tImp(tEq(v.T, anyNil), tNot(ok)))
+		x.setReg(in, &Val{K: VTuple, Typ: in.Type(), F: []*Val{retype(v, in.AssertedType), scalar(ok, nil)}})
+		return
+	}
 	res := x.havocVal(in.AssertedType, "assert")
 	x.assume(st, x.typeFacts(res, in.AssertedType))
 	if in.CommaOk {
